@@ -458,6 +458,13 @@ func buildCorpora(seed int64, root string) (*Corpora, error) {
 		}
 		addPure("schema.LinearAdvanceProofFromProto", seedInput{Name: "linadv-synth", B: mustMarshal(lap)})
 	}
+	if seeds, err := verifyRowSeeds(root); err != nil {
+		return nil, fmt.Errorf("corpus client.VerifyRow: %w", err)
+	} else {
+		for _, sd := range seeds {
+			addPure("client.VerifyRow", sd)
+		}
+	}
 	addPure("schema.DigestFromProto", seedInput{Name: "digest", B: val(32, 9), Header: 4})
 	{
 		md := &schema.TxMetadata{TruncatedTxID: 3, Extra: []byte("extra")}
